@@ -8,6 +8,7 @@ import (
 	"context"
 	"fmt"
 	"io"
+	"os"
 	"runtime"
 	"runtime/debug"
 	"strings"
@@ -25,7 +26,15 @@ import (
 	"verifharness/internal/hx"
 )
 
-func main() { hx.Main(run) }
+func main() {
+	// a hang must not look like a slow run: dump the goroutines and fail
+	time.AfterFunc(10*time.Minute, func() {
+		buf := make([]byte, 1<<20)
+		os.Stderr.Write(buf[:runtime.Stack(buf, true)])
+		os.Exit(3)
+	})
+	hx.Main(run)
+}
 
 func run(c *hx.Ctx) {
 	c.Imports = "HoldOpen.Model HoldOpen.Run"
@@ -122,16 +131,19 @@ func (f *fakeInst) AddReference(cb directive.ReferenceHandler, weak bool) direct
 	if f.sequential && !f.inYield.Load() {
 		f.perturbed.Store(true)
 	}
+	f.gmtx.Lock()
 	if f.gated.Load() {
+		// decided and registered under gmtx: opening the gate cannot miss a call
 		ch := make(chan struct{})
-		f.gmtx.Lock()
 		f.waiting = append(f.waiting, ch)
-		f.gmtx.Unlock()
 		if n := f.inFlight.Add(1); n > f.maxFlight.Load() {
 			f.maxFlight.Store(n)
 		}
+		f.gmtx.Unlock()
 		<-ch
 		f.inFlight.Add(-1)
+	} else {
+		f.gmtx.Unlock()
 	}
 	if f.nilNext.Load() > 0 {
 		f.nilNext.Add(-1)
@@ -472,7 +484,9 @@ func runGated(g gatedScript) (lives []int, e *env, maxFlight int, deadlock bool,
 	}()
 	e.settle(base, &alive)
 	// open the gate, oldest call first
+	e.inst.gmtx.Lock()
 	e.inst.gated.Store(false)
+	e.inst.gmtx.Unlock()
 	for e.inst.releaseOne() {
 		e.settle(base, &alive)
 	}
